@@ -395,6 +395,9 @@ pub fn encode_multiset(sets: &[Vec<i32>]) -> Vec<i32> {
 
 // ---- fine-grained interleaving: the baton changes hands at yield points inside library calls
 
+/// baton take-overs after a stall, process-wide (reported per chain)
+static STEALS: std::sync::atomic::AtomicU64 = std::sync::atomic::AtomicU64::new(0);
+
 struct FineState {
     current: usize,
     live: Vec<bool>,
@@ -406,6 +409,11 @@ struct FineState {
     yields: u64,
     max_parked_depth_sum: u64,
     depth: Vec<u64>,
+    /// bumped whenever the baton holder reaches a scheduling point
+    progress: u64,
+    /// times a parked thread took the baton because its holder made no progress (it is blocked on
+    /// a real synchronisation primitive the simulator does not control)
+    steals: u64,
 }
 
 struct FineSched {
@@ -422,16 +430,50 @@ impl FineSched {
             Some(others[st.rng.below(others.len())])
         }
     }
-    fn wait_turn(&self, me: usize) {
-        let mut g = self.m.lock().unwrap();
+    /// Park until it is `me`'s turn. If the holder of the baton makes no progress for a while it is
+    /// blocked on something outside the simulator's control (a real lock, a OnceLock being
+    /// initialised by a parked thread ...): take the baton so that the run cannot deadlock.
+    fn park<'a>(&'a self, mut g: std::sync::MutexGuard<'a, FineState>, me: usize) -> std::sync::MutexGuard<'a, FineState> {
+        let mut seen = g.progress;
+        let mut stalled = 0;
         while g.current != me {
-            g = self.cv.wait(g).unwrap();
+            let (ng, to) = self
+                .cv
+                .wait_timeout(g, std::time::Duration::from_millis(100))
+                .unwrap();
+            g = ng;
+            if g.current == me {
+                break;
+            }
+            if to.timed_out() {
+                if g.progress == seen {
+                    stalled += 1;
+                    if stalled >= 5 {
+                        g.steals += 1;
+                        g.current = me;
+                        break;
+                    }
+                } else {
+                    seen = g.progress;
+                    stalled = 0;
+                }
+            }
         }
+        g
+    }
+    fn wait_turn(&self, me: usize) {
+        let g = self.m.lock().unwrap();
+        let _g = self.park(g, me);
     }
     fn yield_now(&self, me: usize) {
         let mut g = self.m.lock().unwrap();
         g.yields += 1;
+        g.progress += 1;
         g.depth[me] += 1; // number of yield points passed inside the current call (a proxy of progress)
+        if g.current != me {
+            // this thread lost the baton while it was blocked outside the simulator; wait for its turn
+            g = self.park(g, me);
+        }
         let (n, d) = (g.num, g.den);
         if g.rng.chance(n, d) {
             if let Some(o) = Self::pick_other(&mut g, me) {
@@ -439,17 +481,19 @@ impl FineSched {
                 g.switches += 1;
                 g.trace = mix(g.trace ^ ((me as u64) << 32 | o as u64) ^ g.yields);
                 self.cv.notify_all();
-                while g.current != me {
-                    g = self.cv.wait(g).unwrap();
-                }
+                g = self.park(g, me);
             }
         }
+        drop(g);
     }
     fn finish(&self, me: usize) {
         let mut g = self.m.lock().unwrap();
         g.live[me] = false;
-        if let Some(o) = Self::pick_other(&mut g, me) {
-            g.current = o;
+        g.progress += 1;
+        if g.current == me {
+            if let Some(o) = Self::pick_other(&mut g, me) {
+                g.current = o;
+            }
         }
         self.cv.notify_all();
     }
@@ -572,6 +616,8 @@ fn exec_fine(
             yields: 0,
             max_parked_depth_sum: 0,
             depth: vec![0; n],
+            progress: 0,
+            steals: 0,
         }),
         cv: Condvar::new(),
     });
@@ -621,6 +667,7 @@ fn exec_fine(
     let g = sched.m.lock().unwrap();
     let mut o = obs.into_inner().unwrap();
     o.sort_by_key(|x| (x.task, x.step));
+    STEALS.fetch_add(g.steals, std::sync::atomic::Ordering::Relaxed);
     (o, g.switches, g.yields, g.trace)
 }
 
@@ -1091,6 +1138,7 @@ pub fn chain_main(ctx: &Ctx, dir: &str, index: u64) -> i32 {
         "observations": r.observations, "ops": r.ops, "switches": r.switches,
         "same_text_switch": r.same_text_switch, "trace": r.trace, "schedules": r.schedules,
         "fine_scenarios": r.fine_scenarios, "fine_switches": r.fine_switches, "yield_points": r.yield_points,
+        "baton_steals": STEALS.load(std::sync::atomic::Ordering::Relaxed),
         "scenarios": chain.scenarios.len(),
     });
     if let Some((clause, detail, si)) = r.violation {
@@ -1163,13 +1211,44 @@ pub fn exec_main(ctx: &Ctx, file: &str) -> i32 {
     0
 }
 
+/// Run a child `sim` process with a hard time limit (a hang must never hang the check).
 fn run_child(args: &[String]) -> Option<Value> {
+    use std::io::Read;
     let exe = std::env::current_exe().ok()?;
-    let out = std::process::Command::new(exe).args(args).output().ok()?;
-    if !out.status.success() {
-        return None;
+    let mut child = std::process::Command::new(exe)
+        .args(args)
+        .stdout(std::process::Stdio::piped())
+        .stderr(std::process::Stdio::null())
+        .spawn()
+        .ok()?;
+    let mut stdout = child.stdout.take()?;
+    let reader = std::thread::spawn(move || {
+        let mut buf = vec![];
+        let _ = stdout.read_to_end(&mut buf);
+        buf
+    });
+    let t0 = std::time::Instant::now();
+    let limit = std::time::Duration::from_secs(240);
+    loop {
+        match child.try_wait() {
+            Ok(Some(st)) => {
+                let buf = reader.join().ok()?;
+                if !st.success() {
+                    return None;
+                }
+                return serde_json::from_slice(&buf).ok();
+            }
+            Ok(None) => {
+                if t0.elapsed() > limit {
+                    let _ = child.kill();
+                    let _ = child.wait();
+                    return Some(json!({"timed_out": true}));
+                }
+                std::thread::sleep(std::time::Duration::from_millis(5));
+            }
+            Err(_) => return None,
+        }
     }
-    serde_json::from_slice(&out.stdout).ok()
 }
 
 impl Property for C15 {
@@ -1219,6 +1298,10 @@ impl Property for C15 {
                 return r;
             }
         };
+        if v["timed_out"].as_bool() == Some(true) {
+            r.count("chains_killed_after_time_limit", 1);
+            return r;
+        }
         r.evaluations = v["scenarios"].as_u64().unwrap_or(0);
         r.steps = v["ops"].as_u64().unwrap_or(0);
         r.count("observations_compared_with_baseline", v["observations"].as_u64().unwrap_or(0));
@@ -1231,6 +1314,7 @@ impl Property for C15 {
         r.fault("switch_inside_library_call", v["fine_switches"].as_u64().unwrap_or(0));
         r.count("fine_grained_scenarios", v["fine_scenarios"].as_u64().unwrap_or(0));
         r.count("yield_points_passed", v["yield_points"].as_u64().unwrap_or(0));
+        r.count("baton_taken_over_after_stall", v["baton_steals"].as_u64().unwrap_or(0));
         r.probe("thread_switch_inside_a_library_call", v["fine_switches"].as_u64().unwrap_or(0) > 0);
         let sts = v["same_text_switch"].as_u64().unwrap_or(0);
         r.probe("task_switch_between_calls_on_same_file", sts > 0);
@@ -1271,6 +1355,9 @@ impl Property for C15 {
         let v = run_child(&["c15-exec".into(), file.clone()]);
         let _ = std::fs::remove_file(&file);
         let v = v.ok_or("c15-exec child failed")?;
+        if v["timed_out"].as_bool() == Some(true) {
+            return Err("c15-exec child exceeded its time limit".into());
+        }
         Ok(v.get("violation").map(|x| Violation {
             clause: x["clause"].as_str().unwrap_or("").to_string(),
             detail: x["detail"].as_str().unwrap_or("").to_string(),
